@@ -25,6 +25,7 @@ import ControlModel.Gen.ServentFacts
 import ControlModel.Proofs.CmdQueue
 import ControlModel.Proofs.CmdHandover
 import ControlModel.Proofs.CmdLock
+import ControlModel.Proofs.CmdKey
 
 open CmdQueue
 
@@ -812,3 +813,91 @@ example : neverStuck [.send 0 2 false 0 0, .resp ⟨100, 2, 1, false⟩, .stuck 
 example : Spec C12_demo5 [0]
     [.send 0 2 false 0 0, .resp ⟨100, 2, 1, false⟩, .done 0 (.single (.synth 100 .send))]
     [(0, .single (.synth 100 .send))] = true := by decide
+
+/-! ## several tasks behind one executor (added after seed C12-7)
+
+A target is the triple {agent id, executor id, task id}; the production layout is one
+executor per agent with several tasks behind it, so the targets of ONE command usually
+share agent id and executor id and differ only in the task id. `Model/CmdKey` makes the
+assignment of targets to executors (`ex`, any partition) a parameter and the components
+of the target that enter the key of `Servent.pending` a switch: `codeKey` (the whole
+target — the code) and `execKey` (agent + executor only — not the code). -/
+
+/-- The two `CallId{…}` literals of the Servent (go/ast) are the configuration `codeKey`:
+    the key holds the WHOLE target, task id included, on both sides. -/
+theorem C12_key_cfg_is_code :
+    keyCfgOf Gen.C12.runCommandKey Gen.C12.processResponseKey = some codeKey := by decide
+
+/-- With the code's key the assignment of targets to executors does not enter at all:
+    for EVERY assignment, configuration, state and schedule the keyed model is the model
+    all the theorems above are about. -/
+theorem C12_executors_irrelevant (ex : Nat → Nat) (cmds : List Cmd) (s : State) (sched : List Step) :
+    runK codeKey ex cmds s sched = run cmds s sched := runK_code ex cmds s sched
+
+/-- "Each target gets its own answer or an error of this command", for a key configuration,
+    over every assignment of targets to executors. -/
+def C12_own_or_error_keyed (kc : KeyCfg) : Prop :=
+  ∀ (ex : Nat → Nat) (cmds : List Cmd), wfCfg cmds = true →
+    ∀ (sched : List Step) (c : Nat) (res : Result), (c, res) ∈ (runK kc ex cmds init sched).callbacks →
+      ∃ cmd, cmds[c]? = some cmd ∧ shapeOk cmd res = true ∧
+        ∀ t e, entryOf cmd res t = some e → ownOrError cmd t e = true
+
+/-- The code: for every partition of the targets into executors — all behind one, each on
+    its own, anything between —, single and overlapping commands, every schedule: every
+    delivered result has exactly one entry per target, the target's own reply or an error
+    synthesised for this command. -/
+theorem C12_own_or_error_every_partition : C12_own_or_error_keyed codeKey := by
+  intro ex cmds h sched c res hcb
+  rw [runK_code] at hcb
+  obtain ⟨cmd, hc, hall⟩ := C12_own_or_error cmds h sched c res hcb
+  obtain ⟨cmd', hc', hshape⟩ := C12_result_shape cmds h sched c res hcb
+  have : cmd' = cmd := by rw [hc] at hc'; exact (Option.some.inj hc').symm
+  subst this
+  exact ⟨cmd', hc, hshape.1, fun t e he => (hall t e he).1⟩
+
+/-- Exactly once, for every partition: at most one callback per command, never retracted or
+    altered, and a caller that has returned keeps its outcome. -/
+theorem C12_once_every_partition (ex : Nat → Nat) (cmds : List Cmd) (h : wfCfg cmds = true) (sched later : List Step) :
+    ((runK codeKey ex cmds init sched).callbacks.map (·.1)).Nodup ∧
+    (∃ extra, (runK codeKey ex cmds init (sched ++ later)).callbacks =
+        (runK codeKey ex cmds init sched).callbacks ++ extra) ∧
+    (∀ i o, ((runK codeKey ex cmds init sched).call i).pc = .finished o →
+        ((runK codeKey ex cmds init (sched ++ later)).call i).pc = .finished o) := by
+  simp only [runK_code]
+  exact C12_completes_once cmds h sched later
+
+/-- Witness: one command to two tasks behind ONE executor; both callers register and
+    send, both tasks answer in time, both callers are ready to receive. -/
+def C12_two_tasks : List Cmd := [{ id := 100, targets := [0, 1], tmo := 40 }]
+
+def C12_two_tasks_sched : List Step :=
+  [.start 0, .register (0, 0), .register (0, 1), .sendOk (0, 0), .sendOk (0, 1),
+   .deliver ⟨100, 0, 1, false⟩, .recv (0, 1), .recv (0, 0),
+   .deliver ⟨100, 1, 2, false⟩, .recv (0, 1), .timeout (0, 0), .complete 0]
+
+/-- With a key that drops the task id the property is FALSE: the second registration
+    overwrites the first, task 0's reply completes the surviving call — task 1 is answered
+    with task 0's reply —, task 1's reply finds nothing pending and is dropped, and the
+    overwritten call of task 0, which answered in time, times out. -/
+theorem C12_exec_key_refuted : ¬ C12_own_or_error_keyed execKey := by
+  intro hall
+  obtain ⟨cmd, hc, _, h⟩ := hall (fun _ => 7) C12_two_tasks (by decide) C12_two_tasks_sched 0
+    (.multi 100 [(1, .own ⟨100, 0, 1, false⟩), (0, .synth 100 .timeout)]) (by decide)
+  have hcmd : cmd = { id := 100, targets := [0, 1], tmo := 40 } := by
+    simp [C12_two_tasks] at hc; exact hc.symm
+  subst hcmd
+  exact absurd (h 1 (.own ⟨100, 0, 1, false⟩) (by decide)) (by decide)
+
+example : sharesExecutor (fun _ => 7) { id := 100, targets := [0, 1], tmo := 40 } = true := by decide
+
+/-- the same schedule on the code's key: each task gets its own reply -/
+example : (runK codeKey (fun _ => 7) C12_two_tasks init C12_two_tasks_sched).callbacks =
+    [(0, .multi 100 [(0, .own ⟨100, 0, 1, false⟩), (1, .own ⟨100, 1, 2, false⟩)])] := by decide
+
+example : (runK execKey (fun _ => 7) C12_two_tasks init C12_two_tasks_sched).callbacks =
+    [(0, .multi 100 [(1, .own ⟨100, 0, 1, false⟩), (0, .synth 100 .timeout)])] := by decide
+
+/-- targets on executors of their own: the two-component key is harmless there (why ordinary
+    one-task-per-executor use never shows the difference) -/
+example : (runK execKey id C12_two_tasks init C12_two_tasks_sched).callbacks =
+    (runK codeKey id C12_two_tasks init C12_two_tasks_sched).callbacks := by decide
